@@ -435,28 +435,55 @@ fn run_project(pj: &Value, workdir: &str) -> Value {
         }
         marks.push(gm);
     }
+    // two files without generated declarations: a comment-only file and a file whose only design unit is a
+    // package nothing depends on (rounds that re-analyse nothing must still report every cached warning)
+    let scratch_c = format!("{}/scratch_c.vhd", dir);
+    let scratch_u = format!("{}/scratch_u.vhd", dir);
+    std::fs::write(&scratch_c, "-- scratch\n").unwrap();
+    std::fs::write(&scratch_u, format!("package scr_{} is\nend package;\n", pid)).unwrap();
+    libfiles.get_mut("lib").unwrap().push("scratch_c.vhd".into());
+    libfiles.get_mut("lib").unwrap().push("scratch_u.vhd".into());
     let mut steps = vec![];
     let mut msgs = NullMessages;
     let cfg = make_config(&dir, &libfiles, &|l| l == "tp", layered);
     let mut p = Project::from_config(cfg, &mut msgs);
     p.enable_unused_declaration_detection();
-    let d0 = p.analyse();
-    steps.push(json!({"what":"initial","tp":{"lib":false,"tp":true,"lib2":false},"diags":diags_json(&d0),"real":real_events(&p, &all_files)}));
+    let mut edited = false;
+    let mut tp = json!({"lib":false,"tp":true,"lib2":false});
+    macro_rules! round {
+        ($what:expr) => {{
+            let d = p.analyse();
+            steps.push(json!({"what": $what, "edited": edited, "tp": tp.clone(), "diags": diags_json(&d), "real": real_events(&p, &all_files)}));
+        }};
+    }
+    let touch = |p: &mut Project, path: &str, text: &str| {
+        let src = p.get_source(Path::new(path)).unwrap_or_else(|| Source::inline(Path::new(path), text));
+        src.change(None, text);
+        p.update_source(&src);
+    };
+    round!("initial");
+    // analyse() a second time without any update_source
+    round!("noop");
     if !edits.is_empty() {
         for (path, text) in &edits {
-            let src = p.get_source(Path::new(path)).unwrap_or_else(|| Source::inline(Path::new(path), text));
-            src.change(None, text);
-            p.update_source(&src);
+            touch(&mut p, path, text);
         }
-        let d1 = p.analyse();
-        steps.push(json!({"what":"edit","tp":{"lib":false,"tp":true,"lib2":false},"diags":diags_json(&d1),"real":real_events(&p, &all_files)}));
+        edited = true;
+        round!("edit");
     }
+    // an edit of a file that holds no design unit before and after
+    touch(&mut p, &scratch_c, "-- scratch, edited\n-- second line\n");
+    round!("comment_edit");
     if pj["flip"].as_bool().unwrap_or(false) {
         let cfg = make_config(&dir, &libfiles, &|l| l == "lib", layered);
         p.update_config(cfg, &mut msgs);
-        let d2 = p.analyse();
-        steps.push(json!({"what":"flip","tp":{"lib":true,"tp":false,"lib2":false},"diags":diags_json(&d2),"real":real_events(&p, &all_files)}));
+        tp = json!({"lib":true,"tp":false,"lib2":false});
+        round!("flip");
     }
+    // the only design unit of a file nothing depends on is deleted
+    touch(&mut p, &scratch_u, "");
+    round!("remove_unit");
+    round!("noop");
     let _ = std::fs::remove_dir_all(&dir);
     json!({"id": pid, "dir": dir, "layered": layered, "marks": marks, "steps": steps})
 }
